@@ -74,6 +74,15 @@ func (m *Monitors) betMonitors(c *Chain, o Op, res string, prev, cur *Snap) []st
 	if cur.HouseFee.Cmp(th) != 0 {
 		bad("C01", "house fee collector holds %s but unpaid participations carry %s (after %s)", cur.HouseFee, th, o.Kind)
 	}
+	// what is owed to a depositor is never negative: a negative remaining liquidity means the depositor has taken tokens that entered
+	// custody for somebody else (in the model 0 <= liquidity is part of the settlement-readiness invariant of every reachable state)
+	for mk, ps := range cur.Parts {
+		for _, p := range ps {
+			if !p.IsSettled && p.Liquidity.IsNegative() {
+				bad("C01", "participation %d of market %d has remaining liquidity %s: its depositor took more out of custody than it held for him", p.Index, uidNum(mk), p.Liquidity)
+			}
+		}
+	}
 	// once a market is fully settled (its book is marked settled and leaves the queues) nothing may be left in custody for it
 	for mk, bk := range cur.Books {
 		if bk.Status != obtypes.OrderBookStatus_ORDER_BOOK_STATUS_STATUS_SETTLED {
